@@ -39,6 +39,8 @@ type locksetPkt struct {
 type locksetNet struct {
 	mu    sync.Mutex
 	conns map[string]*locksetConn
+	lose  atomic.Int64 // > 0: every lose-th datagram is dropped (FEC configurations: recovery must run)
+	sent  atomic.Int64
 }
 
 type locksetConn struct {
@@ -78,6 +80,9 @@ func (c *locksetConn) WriteTo(b []byte, addr net.Addr) (int, error) {
 	c.nw.mu.Lock()
 	dst := c.nw.conns[addr.String()]
 	c.nw.mu.Unlock()
+	if k := c.nw.lose.Load(); k > 0 && c.nw.sent.Add(1)%k == 0 {
+		return len(b), nil // lost on the way
+	}
 	if dst != nil {
 		p := locksetPkt{data: append([]byte(nil), b...), from: c.addr}
 		select {
@@ -199,6 +204,9 @@ func locksetDial(t testing.TB, p *locksetPair, addr string, conv uint32) *UDPSes
 
 func locksetNewPair(t testing.TB, cfg locksetCfg, k *locksetCounters) *locksetPair {
 	p := &locksetPair{nw: locksetNewNet(), cfg: cfg, counter: k}
+	if cfg.ds > 0 {
+		defer p.nw.lose.Store(7) // after the handshake below: the FEC decoder has losses to repair while the stress runs
+	}
 	p.block = locksetBlock(t, cfg.cipher)
 	p.lconn = p.nw.listen("server")
 	l, err := ServeConn(p.block, cfg.ds, cfg.ps, p.lconn)
